@@ -59,6 +59,31 @@ type Case struct {
 	Endpoint string  `json:"endpoint"` // path part of the endpoint URL ("" = none)
 	Entries  []Entry `json:"entries"`
 	Ops      []Op    `json:"ops"`
+	// local: how the served directory is spelled when it is configured (after C05-s13): 0 as created, 1 trailing
+	// slash, 2 trailing "/.", 3 doubled slash before the last element, 4 "<parent>/./<dir>", 5 relative to the
+	// working directory with a leading "./"
+	RootSpell int `json:"root_spell,omitempty"`
+}
+
+func spellRoot(root string, how int) string {
+	dir, base := filepath.Split(root)
+	switch how {
+	case 1:
+		return root + "/"
+	case 2:
+		return root + "/."
+	case 3:
+		return dir + "/" + base
+	case 4:
+		return dir + "./" + base
+	case 5:
+		if wd, err := os.Getwd(); err == nil {
+			if rel, err := filepath.Rel(wd, root); err == nil {
+				return "./" + rel
+			}
+		}
+	}
+	return root
 }
 
 const sparseAbove = 100000
@@ -144,6 +169,8 @@ func evaluate(c Case) (o vev.Outcome, err error) {
 	ctx := context.Background()
 	var fs webdav.FileSystem
 	var mem *vdbl.MemFS
+	var known map[string]bool // local backend: the generated entries and their parents
+	created := false           // a Create/Mkdir/Copy/Move went before: the tree is no longer the generated one
 	var root string
 	switch c.Backend {
 	case "mem":
@@ -175,7 +202,13 @@ func evaluate(c Case) (o vev.Outcome, err error) {
 				os.Chtimes(p, time.Unix(e.MTime, 0), time.Unix(e.MTime, int64(e.NS)))
 			}
 		}
-		fs = webdav.LocalFileSystem(root)
+		fs = webdav.LocalFileSystem(spellRoot(root, c.RootSpell))
+		known = map[string]bool{"/": true}
+		for _, e := range c.Entries {
+			for p := trimSlash(string(e.Path)); p != "/" && p != "." && p != ""; p = path.Dir(p) {
+				known[p] = true
+			}
+		}
 	default:
 		return o, fmt.Errorf("unknown backend %q", c.Backend)
 	}
@@ -213,6 +246,13 @@ func evaluate(c Case) (o vev.Outcome, err error) {
 			}
 			if werr != nil {
 				continue
+			}
+			for _, fi := range want {
+				// local backend: what it lists must be one of the generated entries (or a parent of one) - an expectation
+				// that does not come from the backend itself
+				if known != nil && !created && !known[trimSlash(fi.Path)] {
+					return dev("readdir|backend-lists-unknown-path", "LocalFileSystem.ReadDir(%q,%v) lists %q, which is none of the generated entries (root spelling %d)", name, op.Recursive, fi.Path, c.RootSpell), nil
+				}
 			}
 			sort.Slice(want, func(i, j int) bool { return want[i].Path < want[j].Path })
 			sort.Slice(got, func(i, j int) bool { return got[i].Path < got[j].Path })
@@ -253,6 +293,7 @@ func evaluate(c Case) (o vev.Outcome, err error) {
 				return dev("open|content", "Open(%q): client read %d bytes (%.40q), backend holds %d (%.40q)", name, len(got), got, len(want), want), nil
 			}
 		case "create":
+			created = true
 			data := bulk("create:"+name, int64(op.Size))
 			w, err := cl.Create(ctx, name)
 			if err != nil {
@@ -574,6 +615,9 @@ func TestRead(t *testing.T) {
 	vev.Rapid(t, rec, 0, vev.N(700, 60000), func(rt *rapid.T) {
 		c := Case{Backend: rapid.SampledFrom([]string{"mem", "mem", "local"}).Draw(rt, "backend"), Endpoint: rapid.SampledFrom(endpoints).Draw(rt, "endpoint")}
 		c.Entries = genEntries(rt, c.Endpoint, c.Backend == "local")
+		if c.Backend == "local" {
+			c.RootSpell = rapid.SampledFrom([]int{0, 0, 1, 2, 3, 4, 5}).Draw(rt, "rootspell")
+		}
 		n := rapid.IntRange(1, 5).Draw(rt, "nops")
 		for i := 0; i < n; i++ {
 			op := Op{Kind: rapid.SampledFrom([]string{"stat", "stat", "readdir", "readdir", "open"}).Draw(rt, "kind")}
